@@ -299,13 +299,15 @@ struct Workload {
 // ---------------------------------------------------------------------------------------------------------
 // digests of holder / builder state (public accessors only; no pointers, no capacities)
 // ---------------------------------------------------------------------------------------------------------
-static void digest_code(Dig& d, const CodeHolder& code) {
+// with_bytes = false: after JitRuntime::add() the section buffers were relocated to the address the allocator returned,
+// which is not part of any contract (the meaning of installed code is what it computes when executed)
+static void digest_code(Dig& d, const CodeHolder& code, bool with_bytes = true) {
   d.u64(code.is_initialized());
   d.u64(code.section_count());
   for (Section* s : code.sections()) {
     if (!s) { d.u64(0xDEAD); continue; }
     d.u64(s->section_id()); d.u64(s->alignment()); d.u64(s->offset()); d.u64(s->virtual_size());
-    d.bytes(s->data(), s->buffer_size());
+    if (with_bytes) d.bytes(s->data(), s->buffer_size()); else d.u64(s->buffer_size());
     if (g_verbose && s->section_id() == 0) { char b[4]; for (size_t i = 0; i < s->buffer_size() && i < 4096; i++) { snprintf(b, sizeof b, "%02x", s->data()[i]); d.hex += b; } }
   }
   d.mark("sections");
@@ -583,6 +585,7 @@ struct W3 : Workload {
   ErrH eh;
   JitRuntime* rt = nullptr;
   bool finalized = false;
+  bool installed = false;
   std::vector<uint8_t> image;
   static const unsigned NV = 40;
   typedef uint32_t (*F1)(uint32_t, uint32_t, void*);
@@ -591,7 +594,8 @@ struct W3 : Workload {
 
   void body(Rec& R) override {
     finalized = false;
-    R.digest = [this](Dig& d) { digest_code(d, code); digest_nodes(d, cc); d.u64(cc.virt_regs().size()); };
+    installed = false;
+    R.digest = [this](Dig& d) { digest_code(d, code, !installed); digest_nodes(d, cc); d.u64(cc.virt_regs().size()); };
     R.semantic = [this](Dig& d) { if (!finalized) { d.u64(code.label_count()); digest_nodes(d, cc, false); d.u64(cc.virt_regs().size()); } };
     R.eh = &eh;
     R.usable = [this]() { return code.is_initialized() && cc.code() == &code; };
@@ -708,12 +712,11 @@ struct W3 : Workload {
     bool runnable = R.all_ok && fn && fn2;
     if (runnable && code.is_initialized()) {
       R.step("add", [&]() -> Error {
+        installed = true;
         Error e = rt->add(&base, &code);
         if (e == Error::kOk) {
           if (!code.is_label_bound(fn->label()) || !code.is_label_bound(fn2->label())) return Error::kInvalidState;
           off1 = code.label_offset(fn->label()); off2 = code.label_offset(fn2->label());
-          Dig d; for (Section* sec : code.sections()) d.bytes(sec->data(), sec->buffer_size());
-          // the installed image is position dependent (absolute call target / address table): not part of any digest
         }
         return e;
       });
@@ -748,6 +751,7 @@ struct W3 : Workload {
 // ---------------------------------------------------------------------------------------------------------
 struct W4 : Workload {
   bool dual;
+  bool installed = false;
   JitRuntime* rt = nullptr;
   CodeHolder code;
   x86::Assembler a;
@@ -779,7 +783,8 @@ struct W4 : Workload {
   }
   void body(Rec& R) override {
     // allocator statistics: only the number of live allocations is API-level state (blocks kept by a soft reset are a cache)
-    R.digest = [this](Dig& d) { digest_code(d, code); if (rt) { JitAllocator::Statistics st = rt->allocator().statistics(); d.u64(st.allocation_count()); } };
+    installed = false;
+    R.digest = [this](Dig& d) { digest_code(d, code, !installed); if (rt) { JitAllocator::Statistics st = rt->allocator().statistics(); d.u64(st.allocation_count()); } };
     R.eh = &eh;
     R.usable = [this]() { return code.is_initialized() && a.code() == &code; };
     make_rt(R);
@@ -789,15 +794,20 @@ struct W4 : Workload {
     S0("attach", code.attach(&a));
     // generated code is only executed when every call that produced it reported success
     bool ok1 = S("assemble.1", assemble(5, 0)) == Error::kOk;
+    installed = true;
     ok1 &= SH("add.1", rt->add(&f1, &code)) == Error::kOk;
     R.step("run.1", [&]() -> Error { if (!f1 || !ok1) return Error(0xFFFFu); R.extra = f1(3, 4); return Error::kOk; });
+    installed = false;
     bool ok2 = S("reinit", code.reinit()) == Error::kOk;
     ok2 &= S("assemble.2", assemble(1000, 200000)) == Error::kOk;         // larger than the first block: a second, bigger block
+    installed = true;
     ok2 &= SH("add.2", rt->add(&f2, &code)) == Error::kOk;
     R.step("run.2", [&]() -> Error { if (!f2 || !ok2) return Error(0xFFFFu); R.extra = f2(10, 20); return Error::kOk; });
     R.step("release.1", [&]() -> Error { if (!f1) return Error(0xFFFFu); Error e = rt->release(f1); f1 = nullptr; return e; }, false);
+    installed = false;
     bool ok3 = S("reinit.2", code.reinit()) == Error::kOk;
     ok3 &= S("assemble.3", assemble(77, 300)) == Error::kOk;
+    installed = true;
     ok3 &= SH("add.3", rt->add(&f3, &code)) == Error::kOk;
     R.step("run.3", [&]() -> Error { if (!f3 || !ok3) return Error(0xFFFFu); R.extra = f3(1, 2); return Error::kOk; });
     R.step("run.2b", [&]() -> Error { if (!f2 || !ok2) return Error(0xFFFFu); R.extra = f2(7, 8); return Error::kOk; });
@@ -981,7 +991,7 @@ static Workload* make_workload(const std::string& n) {
   fprintf(stderr, "unknown workload %s\n", n.c_str()); exit(3);
 }
 
-struct Job { int cls; std::vector<uint32_t> ks; };
+struct Job { int cls; std::vector<uint32_t> ks; int mode = -1; };   // mode: reset policy used before the retry (-1: by job parity)
 
 static void leak_event(FILE* out) {
   vj::W w;
@@ -1029,7 +1039,7 @@ static void run_job(const std::string& wl, FILE* out, int jobno, const Job& job)
     W->body(R);
     E.armed = false;
     fflush(out);
-    int mode = jobno & 1;
+    int mode = job.mode >= 0 ? job.mode : (jobno & 1);
     Error e = W->reset_objects(mode);
     { vj::W w; w.beginObj().kv("e", "ResetObjects").kv("r", err_name(e)).kv("mode", mode ? "hard" : "soft").kv("hits", (long long)E.hits).endObj().emit(out); }
     R.ph = 'R'; R.idx = 0; R.all_ok = true;
@@ -1047,7 +1057,7 @@ static std::vector<Job> make_jobs(const uint64_t counts[4], bool thorough, unsig
   std::vector<Job> jobs;
   for (int cls = C_ARENA; cls <= C_VM; cls++) {
     uint64_t n = std::min<uint64_t>(counts[cls], kPlanBits - 1);
-    if (thorough) { for (uint64_t k = 1; k <= n; k++) jobs.push_back(Job{cls, {uint32_t(k)}}); }
+    if (thorough) { for (uint64_t k = 1; k <= n; k++) { jobs.push_back(Job{cls, {uint32_t(k)}, 0}); jobs.push_back(Job{cls, {uint32_t(k)}, 1}); } }   // soft and hard reset
     else {
       uint64_t dense = std::min<uint64_t>(n, 400);
       for (uint64_t k = 1; k <= dense; k++) jobs.push_back(Job{cls, {uint32_t(k)}});
